@@ -65,3 +65,27 @@ Print Assumptions unblind_blind.
 Print Assumptions blind_commutes.
 Print Assumptions blinded_key_changes_iff.
 Print Assumptions blinded_keys_correspond.
+
+(** the same laws at the arithmetic the harness EXECUTES against the code (Model/Derive.v [mulm], [invm] on N), for every
+    prime group order q; the abstract field the theorems above quantify over is inhabited by this executable structure
+    (Base/Zq.v [zq_field]) *)
+From Coq Require Import ZArith NArith Znumtheory.
+From PatVerif Require Import Base.Zq Model.Derive Proofs.ZqP.
+Theorem inverse_executed : forall q a, prime (Z.of_N q) -> (a mod q <> 0)%N -> mulm q a (invm q a) = 1%N.
+Proof. exact invm_correct. Qed.
+Theorem unblind_blind_executed : forall q P b, prime (Z.of_N q) -> (b mod q <> 0)%N ->
+  mulm q (invm q b) (mulm q b P) = (P mod q)%N.
+Proof. exact exec_unblind_blind. Qed.
+Theorem blind_commutes_executed : forall q P b1 b2, q <> 0%N -> mulm q b2 (mulm q b1 P) = mulm q b1 (mulm q b2 P).
+Proof. exact exec_blind_commutes. Qed.
+Theorem blinded_key_changes_executed : forall q P b1 b2, prime (Z.of_N q) -> (P mod q <> 0)%N ->
+  mulm q b1 P = mulm q b2 P -> (b1 mod q = b2 mod q)%N.
+Proof. exact exec_blind_injective. Qed.
+Theorem exponent_field_exists : forall q (Hq : prime q),
+  field_theory (z0 q Hq) (z1 q Hq) (zadd q Hq) (zmul q Hq) (zsub q Hq) (zopp q Hq) (zdiv q Hq) (zinv q Hq) (@eq (zq q)).
+Proof. exact zq_instance. Qed.
+Print Assumptions inverse_executed.
+Print Assumptions unblind_blind_executed.
+Print Assumptions blind_commutes_executed.
+Print Assumptions blinded_key_changes_executed.
+Print Assumptions exponent_field_exists.
